@@ -111,6 +111,9 @@ class Ctx:
         s.allow_go = o.get("allow_go", False)
         s.progress_every = int(os.environ.get("PROGRESS", "20000"))
         s.fresh_feas = o.get('fresh_feas', True)
+        # branch feasibility is decided WITHOUT the injectivity axioms of ideal hashes (an over-approximation:
+        # at worst an infeasible path is explored; every VC and cover is decided with the axioms)
+        s.feas_axioms = o.get('feas_axioms', False)
         s.hash_injective = o.get('hash_injective', False)
         s.axioms = []
         s.heap_strict = o.get('heap_strict', True)
@@ -164,7 +167,7 @@ class Interp:
             fs.add(*a)
             r = fs.check()
             t1 = time.time()
-            if r == z3.sat and c.axioms and any(has_uf(x) for x in a):
+            if r == z3.sat and c.axioms and c.feas_axioms and any(has_uf(x) for x in a):
                 t2 = time.time()
                 fs.add(*c.axioms)
                 r = fs.check()
